@@ -4,6 +4,7 @@ import (
 	"bytes"
 	"context"
 	"fmt"
+	"strings"
 	"sync"
 	"sync/atomic"
 	"time"
@@ -96,6 +97,7 @@ func runLedgerWorkload(r *ev.Run, st *Stack, g *rng.R, caseID string, cfg c01Cfg
 	ctx, cancel := context.WithCancel(context.Background())
 	var told, got, dups, replies atomic.Int64
 	var closedMid atomic.Bool
+	multiHomed := strings.HasPrefix(st.Name, "multi{")
 	var rwg, swg sync.WaitGroup
 	viol := func(sig, desc string, d map[string]any) {
 		d["stack"] = st.Name
@@ -256,7 +258,13 @@ func runLedgerWorkload(r *ev.Run, st *Stack, g *rng.R, caseID string, cfg c01Cfg
 									time.Sleep(20 * time.Microsecond) // paced, so that the telling lasts well past the moment of Close
 								}
 								tctx, cf := context.WithTimeout(ctx, timeout)
-								err := node.Tell(tctx, dst, v)
+								var err error
+								if la := st.Nodes[dst].LocalAddrs(); multiHomed && len(la) > 1 && lg.Bool() {
+									err = node.TellAddr(tctx, la[lg.Intn(len(la))], v) // any of a multi-homed node's addresses, not only its first
+									r.Count("tells_to_another_local_address", 1)
+								} else {
+									err = node.Tell(tctx, dst, v)
+								}
 								cf()
 								for k := range segs {
 									if !bytes.Equal(segs[k], pristine[k]) {
